@@ -26,25 +26,17 @@ Open Scope Z_scope.
    every other input both sides answer the constant (9): the check only requires that
    the harness survives such a call, not what the code does with it.
 
-   observation of one call: (0 ns) the time.Duration in ns | (1) no delay: the random draw
-   had an empty range (non-positive Cap; the code panics in rand.Intn).
-   (1) anywhere in a sequence makes the whole observation ((1)). *)
+   observation of one call: (0 ns) the time.Duration in ns.  (The harness writes (1) /
+   ((1)) when the code's random draw panics; the repaired code and the model never do.) *)
 
 Definition outcome_sx (o : outcome) : sx :=
-  match o with
-  | Panic => SL [SZ 1]
-  | Dur ns => SL [SZ 0; SZ ns]
-  end.
+  match o with Dur ns => SL [SZ 0; SZ ns] end.
 
 (* jittered call: echo the observed delay r when it is within [0, bound] *)
 Definition echo_sx (r : Z) (o bound : outcome) : sx :=
   match o, bound with
   | Dur x, Dur bnd => if (0 <=? r) && (r <=? bnd) then SL [SZ 0; SZ r] else SL [SZ 0; SZ x]
-  | _, _ => SL [SZ 1]
   end.
-
-Definition has_panic (os : list outcome) : bool :=
-  existsb (fun o => match o with Panic => true | Dur _ => false end) os.
 
 Fixpoint echo_list (rs : list Z) (os bs : list outcome) : list sx :=
   match rs, os, bs with
@@ -55,8 +47,7 @@ Fixpoint echo_list (rs : list Z) (os bs : list outcome) : list sx :=
 (* a sequence of calls on [b] with observed values / oracle [rs] *)
 Definition seq_sx (b : backoff) (rs : list Z) : sx :=
   let os := snd (dur_seq b rs) in
-  if has_panic os then SL [SL [SZ 1]]
-  else if no_jitter b then SL (map outcome_sx os)
+  if no_jitter b then SL (map outcome_sx os)
   else
     let twin := mkBackoff true (base b) (factor b) (cap b) (attempt b) in
     SL (echo_list rs os (snd (dur_seq twin (map (fun _ => 0) rs)))).
@@ -88,11 +79,7 @@ Definition run_typed (inp : c19_input) : sx :=
     if nj then outcome_sx o else echo_sx r o (snd (dur_for_attempt (fresh true ba f c) n 0))
   else if mode =? 1 then seq_sx b rs
   else if mode =? 3 then
-    SL (map (fun os => if has_panic os then SL [SL [SZ 1]] else SL (map outcome_sx os))
-            (outages (fresh true ba f c) rs))
-  else
-    let '(b1, os1) := dur_seq b (zeros k) in
-    if has_panic os1 then SL [SL [SZ 1]]
-    else seq_sx (reset b1) rs.
+    SL (map (fun os => SL (map outcome_sx os)) (outages (fresh true ba f c) rs))
+  else seq_sx (reset (fst (dur_seq b (zeros k)))) rs.
 
 Definition run_C19 : sx -> sx := with_input dec_input run_typed.
